@@ -6,6 +6,9 @@
 //   phase 2 (-DVH_PHASE=2): additionally *calls* every declared operation once;
 //                           built at -O0 so that the linker lists every function
 //                           that is declared but not defined.
+//   -DVH_TU2:               the same code as a second translation unit (no main): the
+//                           two objects are linked together, so a header that emits a
+//                           non-inline definition shows up as "multiple definition".
 #include "common/types.hpp"
 
 #include <avel/Avel.hpp>
@@ -98,7 +101,11 @@ static void report(const char* tn) {
 #endif
 }
 
+#ifdef VH_TU2
+int main_second_translation_unit() {
+#else
 int main() {
+#endif
 #define RUN(X) report<avel::vec##X, avel::Vector<avel::vec##X::scalar, 1>>(#X);
     VH_ALL_TYPES(RUN)
     return 0;
